@@ -2,7 +2,8 @@
     cmpBytes with its [la < 8] manual loop and its bytes.Compare branch).
     Byte slices and strings are [list Z]; [int]/[int32] arithmetic is unbounded
     [Z] here; Model/Bitstr32.v restates New and Len with the int32 wraps and
-    Proofs/Bitstr32Proofs.v shows the two agree whenever toBit + 7 < 2^31.  A slice
+    Proofs/Bitstr32Proofs.v shows the two agree on the whole int32 range (the
+    end byte is computed in int64 since the fix b2a771a).  A slice
     expression, index or [make] that Go would panic on gives [None]. *)
 From Coq Require Import ZArith List Bool.
 From Low Require Import Lib.MachInt Lib.Bits Lib.BitSeq Lib.Lex.
